@@ -1,4 +1,4 @@
-//! C09 monitor (not written yet).
-pub fn run(_ctx: &crate::ctx::Ctx, report: &mut vcore::Report) {
-    report.notes.push("stub".into());
+//! C09 – see taint.rs (shared engine with C19).
+pub fn run(ctx: &crate::ctx::Ctx, report: &mut vcore::Report) {
+    crate::taint::run(ctx, report, crate::taint::Mode::C09);
 }
